@@ -5,6 +5,6 @@ D=$(mktemp -d /tmp/mutXXXX); rmdir $D
 git -C /repo worktree add --detach $D HEAD -q || exit 2
 ( cd $D && git apply "$P" ) || { echo "patch does not apply"; git -C /repo worktree remove --force $D; exit 3; }
 for c in "$@"; do
-  VERIF_REPO=$D VERIF_REPLAY_DIR=/tmp/replays_mut /verif/check $c --tier quick 2>&1 | grep -E "^VIOLATION|^OK|^MACH|^KNOWN" | cut -c1-260 | head -${MUT_LINES:-4}
+  VERIF_REPO=$D VERIF_OUT=/tmp/mut_out /verif/check $c --tier quick 2>&1 | grep -E "^VIOLATION|^OK|^MACH|^KNOWN" | cut -c1-260 | head -${MUT_LINES:-4}
 done
 git -C /repo worktree remove --force $D
